@@ -48,7 +48,7 @@ def InFragment2 (env : RequestEnv) : Expr → Bool
   | .or a b => InFragment2 env a && InFragment2 env b
   | .unaryApp _ a => InFragment2 env a
   | .binaryApp op a b => binOpOK op && InFragment2 env a && InFragment2 env b
-  | .call _ _ => false
+  | .call _ args => InFragment2List env args
   | .getAttr e _ => InFragment2 env e
   | .hasAttr e _ => InFragment2 env e
   | .like e _ => InFragment2 env e
